@@ -59,6 +59,14 @@ def gen_cases(rng, tier):
             v = [rng.randrange(256) for _ in range(vl)]
             yield case("nv_write", n, v), ["write"]
             yield case("nv_run", enc(n, v)), ["run", "roundtrip"]
+    # every total size 0..300 of a pair (mid-sized pairs included: staging buffers and fast paths have their own boundaries), the name
+    # empty, one byte, half and all of it
+    for total in range(0, 301 if not quick else 141):
+        for nl in sorted(set([0, 1, total // 2, total])):
+            if nl <= total:
+                n = [rng.randrange(256) for _ in range(nl)]
+                v = [rng.randrange(256) for _ in range(total - nl)]
+                yield case("nv_write", n, v), ["write", "size-sweep"]
     for (a, b) in [(MAXV + 1, 0), (0, MAXV + 1), (2 ** 32, 1), (5, 2 ** 32 + 7), (MAXV, 0), (0, MAXV), (MAXV - 1, 1)] + ([] if quick else [(3, MAXV), (MAXV, MAXV)]):
         yield case("nv_write_big", [a], [b]), ["write", "big"]
     # exhaustive short strings over the boundary alphabet
@@ -117,7 +125,7 @@ def nontrivial(line, tags):
 
 
 def min_classes(tier):
-    return {"exhaustive-short": 19000, "prefix": 500, "mutated": 150, "big": 7, "huge-lengths": 100, "long-input": 4}
+    return {"exhaustive-short": 19000, "prefix": 500, "mutated": 150, "big": 7, "huge-lengths": 100, "long-input": 4, "size-sweep": 400}
 
 
 def oracle(line, impl_line):
